@@ -506,7 +506,8 @@ func (env *ExecEnv) split(f *field) []*field {
 		} else {
 			var i int
 			for j, r := range s {
-				if strings.ContainsRune(ifs, r) {
+				_, w := utf8.DecodeRuneInString(s[j:])
+				if isIFS(ifs, s[j:j+w]) {
 					switch {
 					case unicode.IsSpace(r):
 						// IFS white space
@@ -521,7 +522,6 @@ func (env *ExecEnv) split(f *field) []*field {
 					default:
 						ws = false
 					}
-					_, w := utf8.DecodeRuneInString(s[j:])
 					i = j + w
 				} else {
 					ws = false
@@ -536,6 +536,19 @@ func (env *ExecEnv) split(f *field) []*field {
 		fields = fields[:len(fields)-1]
 	}
 	return fields
+}
+
+// isIFS reports whether the character c is in ifs. A byte which is not
+// part of a valid UTF-8 sequence is a character by itself.
+func isIFS(ifs, c string) bool {
+	for ifs != "" {
+		_, w := utf8.DecodeRuneInString(ifs)
+		if ifs[:w] == c {
+			return true
+		}
+		ifs = ifs[w:]
+	}
+	return false
 }
 
 // join joins the specified fields into a single field.
